@@ -277,7 +277,7 @@ def result_outcome(lf, callterm):
             y = look(x[1])
             if is_call(y, "branch") and y[2]:
                 y = look(y[2][0])
-            while norm(y) != want and is_call(y, "map_err", "ok_or", "ok_or_else") and y[2] and y[1].split("::")[0] in ("std", "core"):
+            while norm(y) != want and is_call(y, "map_err", "ok_or", "ok_or_else", "map", "inspect", "inspect_err") and y[2] and y[1].split("::")[0] in ("std", "core"):
                 y = look(y[2][0])
             if norm(y) == want:
                 if c == ("eq", 0) or (c[0] == "ne" and 1 in c[1] and 0 not in c[1]):
